@@ -730,9 +730,21 @@ func c17UnreadableFile(cases string, res *Result) {
 		"from.twig": "A{% from 'broken.twig' import m %}B", "loop.twig": "{% for i in [1, 2] %}{{ i }}{% include 'broken.twig' ignore missing %}{% endfor %}",
 		"rel.twig": "A{% include './broken.twig' ignore missing %}B",
 	}
+	// the same through relative names from a sub-directory, next to root-level templates of the same base names
+	// (a fallback to the name as written would find those)
+	os.MkdirAll(filepath.Join(root, "sub", "broken.twig"), 0o755)
+	files["sub/rel_inc.twig"] = "A{% include './broken.twig' %}B"
+	files["sub/rel_inc_ign.twig"] = "A{% include './broken.twig' ignore missing %}B"
+	files["sub/rel_ext.twig"] = "{% extends './bad.twig' %}{% block b %}x{% endblock %}"
+	files["sub/rel_imp.twig"] = "A{% import './bad.twig' as m %}B"
+	files["sub/rel_loop.twig"] = "{% for i in [1, 2] %}{% include './bad.twig' %}{% endfor %}"
+	files["sub/bad.twig"] = "x{% if %}y"
+	files["bad.twig"] = "ROOT COPY {% block b %}{% endblock %}"
 	for n, s := range files {
 		os.WriteFile(filepath.Join(root, n), []byte(s), 0o644)
 	}
+	delete(files, "sub/bad.twig")
+	delete(files, "bad.twig")
 	for _, chain := range []bool{false, true} {
 		eng := twig.New()
 		var ld twig.Loader = twig.NewFileSystemLoader([]string{root})
@@ -760,6 +772,8 @@ func c17UnreadableFile(cases string, res *Result) {
 			case errors.Is(err, twig.ErrTemplateNotFound):
 				res.add(Finding{Kind: "oracle", Where: "c17-unreadable-file/" + n, Case: c, Expected: "an error other than template-not-found", Observed: err.Error(),
 					Detail: "a file that exists and cannot be read is reported as a missing template"})
+			case strings.Contains(n, "rel_ext") || strings.Contains(n, "rel_imp") || strings.Contains(n, "rel_loop"):
+				// the cause here is the parse error of sub/bad.twig: an error that is not a template-not-found (checked above)
 			case !errors.As(err, &pe):
 				res.add(Finding{Kind: "oracle", Where: "c17-unreadable-file/" + n, Case: c, Expected: "errors.As(err, *fs.PathError)", Observed: err.Error(),
 					Detail: "the cause of the loader's failure cannot be found in the error chain"})
